@@ -172,6 +172,55 @@ class _Split:
             yield 'geometry', g.strip() == geom
 
 
+_LIKE_DECKS = [
+    # (label, cell block with LIKE cards, the same block written out)
+    ('lower-importance', '10 1 -2.0 -1 imp:n=1\n20 like 10 but imp:n=0 u=2\n30 0 1 imp:n=0',
+     '10 1 -2.0 -1 imp:n=1\n20 1 -2.0 -1 imp:n=0 u=2\n30 0 1 imp:n=0'),
+    ('raise-importance', '10 1 -2.0 -1 imp:n=0\n20 like 10 but imp:n=2 u=2\n30 0 1 imp:n=0',
+     '10 1 -2.0 -1 imp:n=0\n20 1 -2.0 -1 imp:n=2 u=2\n30 0 1 imp:n=0'),
+    ('chain-lowering', '10 1 -2.0 -1 imp:n=2\n20 like 10 but u=2\n25 like 20 but imp:n=0 mat=2 rho=-1.0\n30 0 1 imp:n=0',
+     '10 1 -2.0 -1 imp:n=2\n20 1 -2.0 -1 imp:n=2 u=2\n25 2 -1.0 -1 imp:n=0 u=2\n30 0 1 imp:n=0'),
+    ('forward-reference', '20 like 40 but trcl=(1 0 0) u=3\n40 1 -2.0 -1 imp:n=1\n30 0 1 imp:n=0',
+     '20 1 -2.0 -1 imp:n=1 trcl=(1 0 0) u=3\n40 1 -2.0 -1 imp:n=1\n30 0 1 imp:n=0'),
+    ('void-base', '10 0 -1 imp:n=1\n20 like 10 but mat=1 rho=-2.0 u=2\n30 0 1 imp:n=0',
+     '10 0 -1 imp:n=1\n20 1 -2.0 -1 imp:n=1 u=2\n30 0 1 imp:n=0'),
+    ('two-particle-importances', '10 1 -2.0 -1 imp:n=1 imp:p=3\n20 like 10 but imp:p=0 imp:n=0 u=2\n30 0 1 imp:n=0',
+     '10 1 -2.0 -1 imp:n=1 imp:p=3\n20 1 -2.0 -1 imp:p=0 imp:n=0 u=2\n30 0 1 imp:n=0'),
+]
+
+
+@contract(ParseMCNPCell.parse, props=['C15', 'C12'], name='ParseMCNPCell.parse[LIKE decks]', status='B')
+class _LikeDecks:
+    """From the text of the deck to the parsed cells (MIP card reader, get_cells, parse_all_cells, LIKE resolution):
+    a deck with LIKE n BUT cards and the same deck written out give the same cells, field by field, and the same list
+    of zero-importance cells -- including a BUT that lowers the importance, chains, a reference to a cell defined
+    further down, a void cell given a material."""
+    scope = '6 small decks (one per LIKE feature)'
+
+    def bounded(tier):
+        for label, like, explicit in _LIKE_DECKS:
+            yield {'label': label, 'like': like, 'explicit': explicit}
+
+    def call(label, like, explicit):
+        from harness import shim
+        from contracts.c02 import _mip_of
+        shim.install()
+        out = []
+        for cells in (like, explicit):
+            text = f'like test {label}\n{cells}\n\n1 so 1.0\n\nm1 13027 1.0\nm2 1001 2.0 8016 1.0\nmode n p\n'
+            import contextlib
+            import io
+            with contextlib.redirect_stdout(io.StringIO()):
+                parsed, skipped = ParseMCNPCell(_mip_of(text), None, {}).parse()
+            out.append(({k: _fields(v) for k, v in parsed.items()}, sorted(skipped)))
+        return out
+
+    def ensures(result, label, like, explicit):
+        (cells_like, skipped_like), (cells_exp, skipped_exp) = result
+        yield 'same-cells', cells_like == cells_exp
+        yield 'same-zero-importance-cells', skipped_like == skipped_exp
+
+
 def _sweep_c15(tier, seed):
     from harness.sweeps import deck_sweep
     return deck_sweep('C15', tier, seed, families=('fill',), n_quick=64, n_thorough=600,
